@@ -57,7 +57,7 @@ CONSTANTS
   Modes = {"async", "sync"}
   TraceMode = TRUE
   MaxChans = 1000000
-INVARIANTS NoProtocolError OneMessagePerChannel OneListener
+INVARIANTS NoProtocolError OneMessagePerChannel OneListener NoSharedTree NoSharedNode
 CHECK_DEADLOCK TRUE
 """
 
@@ -84,10 +84,11 @@ def matrix(tier, seed):
         for mode in ("async", "sync"):
             cfgs += [(mode, 16, False, 0.0, seed), (mode, 1, False, 0.3, seed + 1), (mode, 2, True, 0.3, seed + 2)]
         cfgs += [("np", 16, False, 0.0, seed), ("np", 2, False, 0.3, seed + 1)]
+        cfgs += [("async", 16, 2, 0.0, seed + 3), ("np", 4, 2, 0.3, seed + 3)]
     else:
         for mode in ("async", "sync", "np"):
             for gmp in (1, 2, 16):
-                for mon in (False, True):
+                for mon in (False, True, 2):
                     for k in range(3):
                         cfgs.append((mode, gmp, mon, 0.0 if k == 0 else 0.4, seed + 7 * k + gmp))
     return cfgs
@@ -131,7 +132,9 @@ def real_runs(progs, cfgs, trace=True):
     def mk(p, cfg, max_ms, max_events):
         (mode, gmp, mon, yld, rs) = cfg
         jid = "%s|%s|%d|%d|%.1f|%d" % (p["name"], mode, gmp, int(mon), yld, rs)
-        return {"id": jid, "text": p["text"], "mode": mode, "typecheck": True, "execute": True, "monitor": mon, "gomaxprocs": gmp, "seed": rs,
+        # mon: False / True = monitor, 2 = monitor with a subscriber that serialises every published snapshot (the web front end's configuration)
+        return {"id": jid, "text": p["text"], "mode": mode, "typecheck": True, "execute": True, "monitor": bool(mon), "subscriber": int(mon) == 2,
+                "gomaxprocs": gmp, "seed": rs,
                 "yield": yld, "trace": trace, "dump": False, "max_ms": max_ms, "max_events": max_events}
 
     # phase 1: one asynchronous run per program classifies it (terminates within the bound? how large?)
@@ -213,7 +216,7 @@ def split_chunks(xs, n):
 
 def exhaustive(progs, work, modes=("async", "sync"), maxchans=300, timeout=600, invs=None, expect=None):
     """one TLC run over all given programs; on a violation, rerun per program to attribute it."""
-    invs = invs or "NoProtocolError OneMessagePerChannel OneListener QuiescentClean ExpectedOutcome"
+    invs = invs or "NoProtocolError OneMessagePerChannel OneListener QuiescentClean ExpectedOutcome NoSharedTree"
     corpus = [{"name": p["name"], "prog": p["dump"], "typed": True, "expect": (expect or {}).get(p["name"], ["?"])} for p in progs]
     if not corpus:
         return {"ok": True, "distinct": 0, "generated": 0, "per_prog": {}, "timeout": False}
@@ -302,6 +305,71 @@ def validate_traces(progs, runs, work, chunks=None, timeout=900, max_events=1200
             rejected += rej
             events += evs
     return {"traces": len(traces), "accepted": accepted, "rejected": rejected, "events": events, "skipped_long": skipped_long}
+
+
+OWN_CFG = """SPECIFICATION Spec
+INVARIANTS Exclusive Disjoint
+CHECK_DEADLOCK FALSE
+"""
+
+
+def own_project(events):
+    return [{"e": e["e"], "p": e["p"], "child": e.get("child", []), "tree": e.get("tree", [])} for e in events if e["e"] in ("spawn", "at", "end")]
+
+
+def validate_ownership(runs, work, timeout=900, max_events=6000, selftest=True):
+    """Own.tla on every recorded run of every execution version (np included): no Form node is held by two live processes at once."""
+    traces = [{"id": r["id"], "events": own_project(r["events"])} for r in runs if r["events"] and not r["crash"] and len(r["events"]) <= max_events]
+    parts = balanced_chunks(traces, min(vlib.NCPU, max(1, len(traces) // 6)))
+    res = {"traces": len(traces), "events": sum(len(t["events"]) for t in traces), "clashes": [], "errors": [], "states": 0,
+           "by_mode": dict(collections.Counter(t["id"].split("|")[1] for t in traces))}
+
+    def one(k):
+        todo = list(parts[k])
+        clashes, errors, states = [], [], 0
+        while todo:
+            tp = work.path("own_%d_%d.json" % (k, len(todo)))
+            json.dump(todo, open(tp, "w"))
+            r = vlib.tlc("Own", OWN_CFG, env={"VERIF_TRACES": tp}, workers=1, timeout=timeout, work=work)
+            os.remove(tp)
+            states += r["distinct"]
+            if r["ok"]:
+                break
+            if r["violated"]:
+                lv = vlib.last_state_vars(r["out"], ["ti", "l", "clash"])
+                ti = int(lv.get("ti", "1"))
+                clashes.append({"id": todo[ti - 1]["id"], "at": int(lv.get("l", "0")), "clash": lv.get("clash", "")[:300]})
+                todo = todo[ti:]
+            else:
+                errors.append((r["error_text"] or "timeout")[:800])
+                break
+        return clashes, errors, states
+
+    if parts:
+        with concurrent.futures.ThreadPoolExecutor(max_workers=len(parts)) as ex:
+            for c, e, st in ex.map(one, range(len(parts))):
+                res["clashes"] += c
+                res["errors"] += e
+                res["states"] += st
+    if selftest and traces:
+        # binding self-test: the same run with one process made to hold another live process's node must be rejected
+        t = max(traces, key=lambda t: len(t["events"]))
+        evs = json.loads(json.dumps(t["events"]))
+        ats = [i for i, e in enumerate(evs) if e["e"] == "at" and e["tree"]]
+        st = {"ran": False}
+        for i in ats:
+            live = [j for j in ats if j < i and evs[j]["p"] != evs[i]["p"] and not any(x["e"] == "end" and x["p"] == evs[j]["p"] for x in evs[j:i])
+                    and not any(x["e"] == "at" and x["p"] == evs[j]["p"] for x in evs[j + 1:i])]
+            if live:
+                evs[i] = dict(evs[i], tree=evs[i]["tree"] + [evs[live[-1]]["tree"][0]])
+                tp = work.path("own_self.json")
+                json.dump([{"id": "selftest", "events": evs}], open(tp, "w"))
+                r = vlib.tlc("Own", OWN_CFG, env={"VERIF_TRACES": tp}, workers=1, timeout=300, work=work)
+                st = {"ran": True, "trace": t["id"], "corrupted": "rejected" if r["violated"] else ("accepted" if r["ok"] else "error")}
+                st["ok"] = st["corrupted"] == "rejected"
+                break
+        res["selftest"] = st
+    return res
 
 
 def binding_selftest(progs, runs, work):
@@ -407,7 +475,9 @@ def _campaign(tier, seed, extra_progs):
         val = validate_traces(progs, vruns, work, max_events=1200 if tier == "quick" else 5000)
         tm["validate"] = time.time() - t1; t1 = time.time()
         val["selftest"] = binding_selftest(progs, runs, work)
-        tm["selftest"] = time.time() - t1
+        tm["selftest"] = time.time() - t1; t1 = time.time()
+        own = validate_ownership(vruns, work)
+        tm["ownership"] = time.time() - t1
         rejq = {x["id"] for x in val["rejected"] if x.get("event") and x["event"].get("e") == "quiesce"}
         for r in runs:
             r["premature"] = bool(r["events"]) and (r["id"] in rejq or premature_quiescence(r["events"], r["mode"]))
@@ -428,7 +498,7 @@ def _campaign(tier, seed, extra_progs):
                 "progs": [{k: p.get(k) for k in ("name", "src", "fe", "accepted", "closed", "runnable", "text", "ast", "scheme", "wide", "ids", "mutation")} | {
                     "cfree": contraction_free(p["dump"]) if p.get("dump") else None, "size": size.get(p["name"], 0)} for p in progs],
                 "runs": runs, "nonterminating": [p["name"] for p in progs if p["runnable"] and not p.get("terminates")], "exhaustive": exh, "small": [p["name"] for p in small], "validation": val, "expect": expect,
-                "matrix": [list(c) for c in cfgs], "timing": tm, "sax": saxexp, "sax_confluence": saxconf, "sax_orders": saxval}
+                "matrix": [list(c) for c in cfgs], "timing": tm, "ownership": own, "sax": saxexp, "sax_confluence": saxconf, "sax_orders": saxval}
 
 
 if __name__ == "__main__":
